@@ -46,6 +46,14 @@ def run_impl(case):
     X = _cls(case.get("dt", False))
     if k == "from_ticks":
         return vf.try_impl(lambda: X.from_ticks(case["t"]).ticks)
+    if k == "huge":
+        v = (-1 if case["neg"] else 1) * (10**4400 + 12345)
+        what = case["what"]
+        return vf.try_impl(lambda: (X.from_ticks(v) if what == "from_ticks" else
+                                    X.from_tuple(bt.TimeValueTuple(v, 0)) if what == "tuple_w" else
+                                    X.from_tuple(bt.TimeValueTuple(0, v)) if what == "tuple_f" else
+                                    bt.TimeDelta(v) if what == "ctor" else
+                                    bt.DateTime.from_offset(bt.TimeDelta.from_ticks(v))).ticks)
     if k == "from_tuple":
         def f():
             import numpy as np
@@ -157,6 +165,14 @@ def run_impl(case):
 def to_coq(c, r):
     k = c["k"]
     dt = vf.boolc(c.get("dt", False))
+    if k == "huge":
+        v = "(- (10 ^ 4400 + 12345))" if c["neg"] else "(10 ^ 4400 + 12345)"
+        what = c["what"]
+        if what == "from_ticks":
+            return "FromTicks %s %s %s" % (dt, v, vf.resc(r))
+        if what == "from_offset":
+            return "FromOffset %s %s" % (v, vf.resc(r))
+        return "FromTuple %s %s %s %s" % (dt, "0" if what == "tuple_f" else v, v if what == "tuple_f" else "0", vf.resc(r))
     if k == "from_ticks":
         return "FromTicks %s %s %s" % (dt, vf.zc(c["t"]), vf.resc(r))
     if k == "from_tuple":
@@ -183,6 +199,8 @@ def _main_value(c):
 
 
 def sig(c, r):
+    if c["k"] == "huge":
+        return "huge|%s|%s|%s|%s" % (c["what"], c["dt"], c["neg"], "exc" if "exc" in r else "ok"), True
     t = _main_value(c)
     outcome = "exc" if isinstance(r, dict) and "exc" in r else "ok"
     extra = c.get("path", c.get("proto", ""))
@@ -239,6 +257,14 @@ def gen_cases(rng, tier):
         cases.append({"k": "array_bytes", "dt": dt, "l": l})
         cases.append({"k": "array_items", "dt": dt, "l": l, "path": rng.choice(paths), "proto": rng.choice([2, 3, 4, 5]),
                       "i": rng.randrange(0, 9), "sw": rng.choice([0, 1, 1, 2])})
+    # integers too long for Python to print (more than 4300 digits): out of range like any other, OverflowError.
+    # The value is built inside run_impl and written as a Coq expression, so that no decimal string of it is ever made here.
+    for neg in (False, True):
+        for dt in (False, True):
+            for what in ("from_ticks", "tuple_w", "tuple_f"):
+                cases.append({"k": "huge", "what": what, "dt": dt, "neg": neg})
+        cases.append({"k": "huge", "what": "ctor", "dt": False, "neg": neg})
+        cases.append({"k": "huge", "what": "from_offset", "dt": True, "neg": neg})
     # Decimal seconds whose fraction rounds up to the next whole second
     for _ in range(80 if tier == "quick" else 1500):
         w = rng.choice([1, -1, 2, -2, 86400, (1 << 63) - 1, 1 << 63, -(1 << 63), -(1 << 63) - 1, (1 << 63) - 2,
